@@ -85,7 +85,7 @@ _T = {
 }
 
 _V = os.path.dirname(os.path.dirname(os.path.abspath(__file__)))
-DISABLED = {'C20'}
+DISABLED = set()
 CHECKS = {k: v for k, v in _T.items()
           if os.path.exists(os.path.join(_V, 'pv', 'checks', k.lower() + '.py')) and k not in DISABLED}
 NOT_APPLICABLE = {}
